@@ -53,7 +53,7 @@ ob("C01.k1", "c01::k1", {"C01": "H", "C03": "H", "C08": "H", "C09": "H", "C02": 
    "forall five distinct cards, any slot order: or_rank_bits == OR(1<<r_i); is_flush <=> one suit; multiply_primes == product of the rank primes as a mathematical integer (no u32 wrap)",
    ["Five::or_rank_bits", "Five::is_flush", "Five::multiply_primes", "Five::and_bits", "Five::or_bits"], unwind=7, timeout=600)
 ob("C01.k3", "c01::k3", {"C01": "H", "C03": "H", "C08": "H", "C09": "H", "C02": "H", "C04": "H", "C06": "H", "C13": "H"},
-   "forall five words whose OR-ed rank field is <= 7936: hand_rank_value() == flush ? FLUSHES[i] : UNIQUE_5[i] != 0 ? UNIQUE_5[i] : (PRODUCTS[idx] == product ? VALUES[idx] : 0) over the .snip files, idx = search(product): the value is a function of (mask, flush, product) only; returns normally",
+   "forall five words whose OR-ed rank field is <= 7936: hand_rank_value() == is_flush() ? FLUSHES[i] : UNIQUE_5[i] != 0 ? UNIQUE_5[i] : (PRODUCTS[idx] == p ? VALUES[idx] : 0) over the .snip files, with i = or_rank_bits(), p = multiply_primes(), idx = search(p): the value is a function of the triple (or_rank_bits, is_flush, multiply_primes) only; returns normally",
    EVAL5, unwind=7, stubs=[FIND_STUB], timeout=900, weight=2)
 for g, cats in [("distinct", "straight flush / flush / straight / high card (2574 classes)"), ("quads", "four of a kind (156)"),
                 ("full_house", "full house (156)"), ("trips", "three of a kind (858)"), ("two_pair", "two pair (858)"), ("pair", "pair (2860)")]:
